@@ -620,12 +620,14 @@ def oracle_c02(case, obs, res):
             kw = last.kwargs
             if kw.get("reason") == "plan-said-so":
                 continue  # the plan chose the status itself
-            if kw.get("exit_status") == "fail" and cause != "error" and any(
-                e["t"] == "except" and e.get("action") != "reraise" and str(e.get("exc")) == kw.get("reason") for e in obs.plog.events
-            ):
-                # an exception passed through run_wrapper (which closed its run as failed) and was swallowed or
-                # transformed by an enclosing handler of the plan: unhandled inside the run, handled by the plan
-                continue
+            if kw.get("exit_status") == "fail" and not (cause == "error" and kw.get("reason") == str(exc)):
+                seen = {str(y["thrown"]) for y in obs.plog.yields if y.get("thrown") is not None}
+                seen |= {str(e["exc"]) for e in obs.plog.events if e.get("exc") is not None}
+                if kw.get("reason") in seen:
+                    # an exception passed through run_wrapper, which closed its run as failed with that exception's
+                    # text; what happened to the exception afterwards (swallowed or transformed by an enclosing
+                    # handler, or overtaken by an abort/stop during the plan's clean-up) does not change that
+                    continue
             if kw.get("exit_status") is None:
                 # plain close_run by the plan (documented default 'success'); only meaningful without a cause
                 if cause != "none":
